@@ -548,6 +548,12 @@ func (t *ftr) ioExpr(e ast.Expr, hint *ty) (ex, bool) {
 			if hint != nil && hint.k == "err" {
 				return ex{ioNS + "Err.nil", tErr, false}, true
 			}
+			if hint != nil && hint.k == "text" {
+				return ex{"([] : List UInt8)", tText, false}, true
+			}
+			if hint != nil && hint.k == "texts" {
+				return ex{"([] : List (List UInt8))", tTexts, false}, true
+			}
 		case "errSnapNotFound":
 			if t.lookup(e.Name) == nil && t.sp.pkg == "snaps" {
 				if c, ok := t.pkg.values[e.Name].(*ast.CallExpr); ok && selName(c.Fun) == "errors.New" {
@@ -584,6 +590,10 @@ func (t *ftr) ioExpr(e ast.Expr, hint *ty) (ex, bool) {
 				return ex{"([] : List GoSnaps.GoIO.MErr)", tMErrs, false}, true
 			case "[]string":
 				return ex{"([] : List (List UInt8))", tTexts, false}, true
+			case "map[string]string":
+				return ex{"([] : GoSnaps.GoIO.SMap)", tSMap, false}, true
+			case "set":
+				return ex{"([] : GoSnaps.GoIO.GoSet)", tSet, false}, true
 			}
 		}
 	case *ast.BinaryExpr:
@@ -687,7 +697,20 @@ func (t *ftr) ioExpr(e ast.Expr, hint *ty) (ex, bool) {
 					return x, true
 				}
 			}
+		case "slices.IsSortedFunc":
+			if len(e.Args) == 2 && t.src(e.Args[1]) == "naturalSort" {
+				x := t.expr(e.Args[0])
+				if t.err == nil && x.t.k == "texts" {
+					return ex{"(GoSnaps.isSortedNat " + x.s + ")", tBool, x.p}, true
+				}
+			}
 		case "make":
+			if len(e.Args) == 2 && t.src(e.Args[0]) == "set" {
+				n := t.exprH(e.Args[1], tInt)
+				if t.err == nil && n.t.k == "int" && !n.p {
+					return ex{"([] : GoSnaps.GoIO.GoSet)", tSet, false}, true
+				}
+			}
 			if len(e.Args) == 2 && t.src(e.Args[0]) == "[]string" {
 				n := t.exprH(e.Args[1], tInt)
 				if t.err == nil && n.t.k == "int" {
@@ -719,6 +742,11 @@ func (t *ftr) ioExpr(e ast.Expr, hint *ty) (ex, bool) {
 		if id, m, c, ok := recvCall(e); ok {
 			if vt := t.lookup(id.Name); vt != nil {
 				switch {
+				case vt.k == "set" && m == "Has" && len(c.Args) == 1:
+					x := t.expr(c.Args[0])
+					if t.err == nil && x.t.k == "text" {
+						return ex{"(GoSnaps.GoIO.setHas " + t.ln(id.Name) + " " + x.s + ")", tBool, x.p}, true
+					}
 				case vt.k == "T" && m == "Name" && len(c.Args) == 0:
 					return ex{t.ln(id.Name) + ".name", tText, false}, true
 				case vt.k == "scanner" && m == "Bytes" && len(c.Args) == 0, vt.k == "scanner" && m == "Text" && len(c.Args) == 0:
@@ -784,6 +812,36 @@ func (t *ftr) ioStmt(b *strings.Builder, ind string, st ast.Stmt, res *ty) bool 
 		if t.isLockCall(s.X) || t.isCloseCall(s.X) {
 			fmt.Fprintf(b, "%s-- %s\n", ind, t.src(s.X))
 			return true
+		}
+		if c, ok := s.X.(*ast.CallExpr); ok {
+			switch selName(c.Fun) {
+			case "clear":
+				if len(c.Args) == 1 {
+					if id, ok := c.Args[0].(*ast.Ident); ok && t.lookup(id.Name) != nil {
+						switch t.lookup(id.Name).k {
+						case "smap":
+							fmt.Fprintf(b, "%s%s := ([] : GoSnaps.GoIO.SMap)\n", ind, t.ln(id.Name))
+							return true
+						case "set":
+							fmt.Fprintf(b, "%s%s := ([] : GoSnaps.GoIO.GoSet)\n", ind, t.ln(id.Name))
+							return true
+						}
+					}
+				}
+				t.stmtFail(b, ind, "unsupported clear")
+				return true
+			case "slices.SortFunc":
+				// slices.SortFunc(xs, naturalSort): the model's natural sort (pdqsort is not stable; on a
+				// list whose elements the comparator orders totally the result is the sorted list)
+				if len(c.Args) == 2 && t.src(c.Args[1]) == "naturalSort" {
+					if id, ok := c.Args[0].(*ast.Ident); ok && t.lookup(id.Name) != nil && t.lookup(id.Name).k == "texts" {
+						fmt.Fprintf(b, "%s%s := GoSnaps.sortNat %s\n", ind, t.ln(id.Name), t.ln(id.Name))
+						return true
+					}
+				}
+				t.stmtFail(b, ind, "unsupported sort")
+				return true
+			}
 		}
 		if id, m, c, ok := recvCall(s.X); ok {
 			vt := t.lookup(id.Name)
@@ -955,6 +1013,57 @@ func (t *ftr) ioStmt(b *strings.Builder, ind string, st ast.Stmt, res *ty) bool 
 	return false
 }
 
+// rangeMap1: for k, v := range m over a map[string]int.  Go's iteration order is unspecified; the
+// translation iterates in the order of the association list, and the theorems about the translated
+// function have to hold for every order (they are stated on sets / up to permutation).  The key and
+// value variables are assignable in Go: a value variable the body assigns becomes a `let mut` copy.
+func (t *ftr) rangeMap1(s *ast.RangeStmt, xs ex, k, v, ind string, res *ty) string {
+	var b strings.Builder
+	whole, _ := assignedIn(s.Body)
+	if k != "_" && whole[k] {
+		t.stmtFail(&b, ind, "the loop body assigns the range key")
+		return b.String()
+	}
+	if id, ok := s.X.(*ast.Ident); ok && whole[id.Name] {
+		t.stmtFail(&b, ind, "the loop body assigns the ranged map")
+		return b.String()
+	}
+	lk, lv := "_", "_"
+	if k != "_" {
+		lk = leanIdent(k)
+		if t.lookup(k) != nil {
+			t.tmp++
+			lk = fmt.Sprintf("%s_%d", leanIdent(k), t.tmp)
+		}
+	}
+	vAssigned := v != "_" && whole[v]
+	if v != "_" {
+		t.tmp++
+		lv = fmt.Sprintf("%s_%d", leanIdent(v), t.tmp)
+	}
+	fmt.Fprintf(&b, "%sfor (%s, %s) in %s do\n", ind, lk, lv, xs.s)
+	t.push()
+	if k != "_" {
+		t.bind(k, tText)
+		if lk != leanIdent(k) {
+			t.ren[len(t.ren)-1][k] = lk
+		}
+	}
+	if v != "_" {
+		if vAssigned {
+			t.tmp++
+			mv := fmt.Sprintf("%s_%d", leanIdent(v), t.tmp)
+			fmt.Fprintf(&b, "%s  let mut %s := %s\n", ind, mv, lv)
+			lv = mv
+		}
+		t.bind(v, tInt)
+		t.ren[len(t.ren)-1][v] = lv
+	}
+	b.WriteString(t.block(s.Body.List, ind+"  ", res))
+	t.pop()
+	return b.String()
+}
+
 // exprMulti: an expression in a position that receives n values
 func (t *ftr) exprMulti(e ast.Expr, n int) ex {
 	// v, ok := m[k]
@@ -976,6 +1085,16 @@ func (t *ftr) exprMulti(e ast.Expr, n int) ex {
 			}
 			return t.fail("comma-ok read of a map[string]int is outside the translated subset")
 		}
+		if x.t.k == "smap" {
+			k := t.expr(ix.Index)
+			if t.err != nil {
+				return ex{"sorry", tBad, false}
+			}
+			if k.t.k != "text" {
+				return t.fail("map key of type %s", k.t.lean())
+			}
+			return ex{"((GoSnaps.GoIO.smapGet " + x.s + " " + k.s + "), (GoSnaps.GoIO.smapHas " + x.s + " " + k.s + "))", pairOf(tText, tBool), x.p || k.p}
+		}
 	}
 	return t.expr(e)
 }
@@ -992,6 +1111,34 @@ func (t *ftr) mapAssign(b *strings.Builder, ind string, ix *ast.IndexExpr, tok t
 		}
 		keys = append([]ast.Expr{i.Index}, keys...)
 		base = i.X
+	}
+	if lid, ok := base.(*ast.Ident); ok && t.lookup(lid.Name) != nil && len(keys) == 1 && tok == token.ASSIGN {
+		switch t.lookup(lid.Name).k {
+		case "set":
+			// s[x] = struct{}{}
+			k := t.expr(keys[0])
+			if t.err == nil && k.t.k == "text" && t.src(rhs) == "struct{}{}" {
+				if k.p {
+					// evaluate the key first (it may be a call that can panic)
+					t.tmp++
+					kv := fmt.Sprintf("k_%d", t.tmp)
+					fmt.Fprintf(b, "%slet %s := %s\n", ind, kv, k.s)
+					k.s = kv
+				}
+				fmt.Fprintf(b, "%s%s := GoSnaps.GoIO.setAdd %s %s\n", ind, t.ln(lid.Name), t.ln(lid.Name), k.s)
+				return true
+			}
+			t.stmtFail(b, ind, "unsupported set assignment %s", t.src(ix))
+			return true
+		case "smap":
+			k, v := t.expr(keys[0]), t.expr(rhs)
+			if t.err == nil && k.t.k == "text" && v.t.k == "text" && !k.p && !v.p {
+				fmt.Fprintf(b, "%s%s := GoSnaps.GoIO.smapSet %s %s %s\n", ind, t.ln(lid.Name), t.ln(lid.Name), k.s, v.s)
+				return true
+			}
+			t.stmtFail(b, ind, "unsupported map assignment %s", t.src(ix))
+			return true
+		}
 	}
 	sel, ok := base.(*ast.SelectorExpr)
 	if !ok {
